@@ -25,6 +25,8 @@ pub struct Profile {
     pub unions: u32,
     pub closures: u32,
     pub modules: u32,
+    /// `mut e` (cell type inferred) also where the static type of `e` is a union
+    pub inferred_union_cells: bool,
 }
 
 pub const NAMES_PLAIN: &[&str] = &["a", "b", "c", "x", "y", "z", "p", "q"];
@@ -49,6 +51,7 @@ impl Profile {
             unions: 15,
             closures: 15,
             modules: 4,
+            inferred_union_cells: true,
         }
     }
 }
@@ -259,6 +262,17 @@ impl<'a> Gen<'a> {
             }
             Ty::Union(ms) => {
                 let members: Vec<Ty> = ms.iter().cloned().collect();
+                let simple = |t: &Ty| matches!(t, Ty::Int | Ty::Str | Ty::Float | Ty::Bool);
+                if members.len() == 2 && members.iter().all(simple) && self.pct(self.p.unions * 2) {
+                    // widened: the static type is the union although the value is one member
+                    // (`[a, b][k]` - folded to one element when everything is constant)
+                    let d = depth.saturating_sub(1).min(1);
+                    let (a, ta) = self.expr(&members[0], d);
+                    let (b, tb) = self.expr(&members[1], d);
+                    let idx = E::Int(self.rng.range(0, 1));
+                    self.tag("expr:widened-union");
+                    return (E::Index(Box::new(E::Arr(vec![a, b])), Box::new(idx)), Ty::union([ta, tb]));
+                }
                 let m = self.rng.pick(&members).clone();
                 self.expr(&m, depth)
             }
@@ -290,8 +304,13 @@ impl<'a> Gen<'a> {
             }
             Ty::Mut(inner) => {
                 // cells are invariant: declare the content type explicitly
-                let (e, _) = self.expr(inner, depth.saturating_sub(1));
+                let (e, t) = self.expr(inner, depth.saturating_sub(1));
                 self.tag("expr:mut");
+                if t == **inner && (self.p.inferred_union_cells || !matches!(t, Ty::Union(_))) && self.pct(40) {
+                    // cell type inferred from the initial value's static type
+                    self.tag("expr:mut-inferred");
+                    return (E::MutInf(t.clone(), Box::new(e)), Ty::mutc(t));
+                }
                 (E::Mut(Some((**inner).clone()), Box::new(e)), Ty::mutc((**inner).clone()))
             }
             Ty::Fun(ps, r) => self.fun_expr(ps, r, depth),
@@ -798,7 +817,7 @@ impl<'a> Gen<'a> {
                     vec![],
                     Ty::iter_of(Ty::Int),
                     vec![
-                        S::Let(cn, Box::new(S::Expr(E::Mut(None, Box::new(E::Int(lo)))))),
+                        S::Let(cn, Box::new(S::Expr(E::MutInf(Ty::Int, Box::new(E::Int(lo)))))),
                         S::Return(Some(Box::new(S::Expr(E::Lambda(vec![], Ty::Tup(vec![Ty::Bool, Ty::Int]), body))))),
                     ],
                 );
@@ -964,6 +983,62 @@ impl<'a> Gen<'a> {
         }
     }
 
+    /// a scrutinee for a run-time type test together with the types worth testing it against: the scalar union
+    /// int|string, or a structured value whose run-time type is narrower than its static type
+    fn typed_scrutinee(&mut self, d: u32) -> (E, Vec<Ty>) {
+        let u = Ty::union([Ty::Int, Ty::Str]);
+        if !self.pct(self.p.unions * 2) {
+            let (e, _) = self.union_scrutinee(d);
+            return (e, vec![Ty::Int, Ty::Str, u, Ty::Any, Ty::Float]);
+        }
+        let d = d.min(1);
+        let mut elem = |g: &mut Self| -> E {
+            match g.rng.below(4) {
+                0 => g.expr(&Ty::Int, d).0,
+                1 => g.expr(&Ty::Str, d).0,
+                _ => {
+                    let (a, _) = g.expr(&Ty::Int, 0);
+                    let (b, _) = g.expr(&Ty::Str, 0);
+                    E::Index(Box::new(E::Arr(vec![a, b])), Box::new(E::Int(g.rng.range(0, 1))))
+                }
+            }
+        };
+        match self.rng.below(3) {
+            0 => {
+                let n = 1 + self.rng.below(3);
+                let es: Vec<E> = (0..n).map(|_| elem(self)).collect();
+                self.tag("type-test:array-of-union");
+                (E::Arr(es), vec![Ty::arr(Ty::Int), Ty::arr(Ty::Str), Ty::arr(u.clone()), Ty::arr(Ty::Any), Ty::Any, Ty::arr(Ty::Float)])
+            }
+            1 => {
+                let a = elem(self);
+                let b = elem(self);
+                self.tag("type-test:tuple-of-union");
+                (
+                    E::Tup(vec![a, b]),
+                    vec![
+                        Ty::Tup(vec![Ty::Int, Ty::Int]),
+                        Ty::Tup(vec![Ty::Int, Ty::Str]),
+                        Ty::Tup(vec![Ty::Str, u.clone()]),
+                        Ty::Tup(vec![u.clone(), u.clone()]),
+                        Ty::Tup(vec![Ty::Any, Ty::Int]),
+                        Ty::Any,
+                    ],
+                )
+            }
+            _ => {
+                let cells = self.vars_where(|t| matches!(t, Ty::Mut(_)));
+                if cells.is_empty() {
+                    let (e, _) = self.union_scrutinee(d);
+                    return (e, vec![Ty::Int, Ty::Str, u, Ty::Any, Ty::Float]);
+                }
+                let (n, _) = self.rng.pick(&cells).clone();
+                self.tag("type-test:cell");
+                (E::Var(n), vec![Ty::mutc(Ty::Int), Ty::mutc(u.clone()), Ty::mutc(Ty::Str), Ty::mutc(Ty::arr(Ty::Int)), Ty::mutc(Ty::Any), Ty::Any])
+            }
+        }
+    }
+
     /// an expression of static type int|string whose runtime tag is unambiguous
     fn union_scrutinee(&mut self, d: u32) -> (E, Ty) {
         let u = Ty::union([Ty::Int, Ty::Str]);
@@ -1075,9 +1150,9 @@ impl<'a> Gen<'a> {
                 S::If(c, Box::new(S::Block(t)), e)
             }
             4 => {
-                let (scr, _) = self.union_scrutinee(d);
+                let (scr, tests) = self.typed_scrutinee(d);
                 let n = self.name();
-                let ty = self.rng.pick(&[Ty::Int, Ty::Str, Ty::union([Ty::Int, Ty::Str]), Ty::Any, Ty::Float]).clone();
+                let ty = self.rng.pick(&tests).clone();
                 self.push();
                 self.declare(&n, ty.clone());
                 let t = { let n = 1 + self.rng.below(2); self.block(n, d) };
@@ -1128,7 +1203,7 @@ impl<'a> Gen<'a> {
                 let k = self.counter_name();
                 let limit = self.rng.range(0, 4);
                 self.declare(&k, Ty::mutc(Ty::Int));
-                self.pending.push(S::Let(k.clone(), Box::new(S::Expr(E::Mut(None, Box::new(E::Int(0)))))));
+                self.pending.push(S::Let(k.clone(), Box::new(S::Expr(E::MutInf(Ty::Int, Box::new(E::Int(0)))))));
                 self.push();
                 let mut body = vec![S::Expr(E::Bin("+=", Box::new(E::Var(k.clone())), Box::new(E::Int(1))))];
                 body.extend(self.loop_body(d));
@@ -1152,7 +1227,7 @@ impl<'a> Gen<'a> {
                 let k = self.counter_name();
                 let limit = self.rng.range(1, 4);
                 self.declare(&k, Ty::mutc(Ty::Int));
-                self.pending.push(S::Let(k.clone(), Box::new(S::Expr(E::Mut(None, Box::new(E::Int(0)))))));
+                self.pending.push(S::Let(k.clone(), Box::new(S::Expr(E::MutInf(Ty::Int, Box::new(E::Int(0)))))));
                 self.push();
                 let mut body = vec![
                     S::Expr(E::Bin("+=", Box::new(E::Var(k.clone())), Box::new(E::Int(1)))),
